@@ -88,7 +88,11 @@ func (r *run) process(stream string, d *Design) {
 			_, p, _ := RenderProto()
 			return p != "" && panicClass(p) == cls
 		})
-		r.res.Fail("generator-panic/"+designPanicClass(small, cls), "goa's gRPC generator panics on a design RunDSL accepted: "+firstLine(panicked), map[string]any{"design": small, "original": d})
+		sig := "generator-panic/" + designPanicClass(small, cls)
+		if strings.Contains(panicked, "strconv.ParseUint") {
+			sig = "nonnumeric-tag-panic"
+		}
+		r.res.Fail(sig, "goa's gRPC generator panics on a design RunDSL accepted: "+firstLine(panicked), map[string]any{"design": small, "original": d})
 		return
 	}
 	if err != nil {
@@ -106,13 +110,21 @@ func (r *run) process(stream string, d *Design) {
 		h := sha256.Sum256([]byte(text))
 		r.distinct.Add(string(h[:]))
 		r.res.Count(fmt.Sprintf("methods:%d", len(svc.Methods)))
-		r.report(Check(d, svc, text), d, svc.Name, text)
+		found := Check(d, svc, text)
+		r.report(found, d, svc.Name, text)
 		term, why := ModelFile(svc)
 		if why != "" {
-			r.res.Fail("outside-modelled-fragment", "a main-stream design could not be described to the model: "+why, map[string]any{"design": d})
+			if stream != "replay" {
+				r.res.Fail("outside-modelled-fragment", "a main-stream design could not be described to the model: "+why, map[string]any{"design": d})
+			}
 			continue
 		}
 		i := r.newCase(caseInfo{Stream: stream, Svc: svc.Name, Design: d, Proto: text})
+		if stream == "replay" && len(found) > 0 {
+			// a replayed failing design: the model has to print the same tokens and find the definition defective too
+			r.wit = append(r.wit, fmt.Sprintf("(%d, %s, WText %s)", i, term, zn(text)))
+			continue
+		}
 		r.main = append(r.main, fmt.Sprintf("(%d, %s, %s)", i, term, zn(text)))
 		if len(r.res.Samples) < 3 {
 			r.res.Sample(map[string]any{"design": d, "proto": text}, 3)
